@@ -330,6 +330,38 @@ def run_hist(h, wsdir, deadline):
         shutil.rmtree(wsdir, ignore_errors=True)
 
 
+def echo_hists(rng, per_kind):
+    """`[change d]? ; ask d K ; <notification about d> ; ask d K` for every request kind K and every notification: whatever the
+    first answer left behind (a response cache, a table, a parse) must not survive a notification that changes what the
+    document is — an unsaved change dropped by didClose, a save, a re-open"""
+    out = []
+    for kind in REQ_KINDS:
+        for notif in ("close", "save", "change", "open", "close-open"):
+            for _ in range(per_kind):
+                d = rng.choice(["C", "C", "P", "G", "U", "X"])
+                h = Hist()
+                h.blanks = False
+                for x in DOCS:
+                    h.disk[x] = [1, DOCS[x][2], "plain"]
+                v = 1
+                if rng.chance(2, 3) or notif == "close":
+                    v += 1
+                    h.ops.append({"k": "change", "d": d, "text": [v, DOCS[d][2], rng.choice(["extra", "twoprocs", "plain"])]})
+                h.ops.append({"k": "ask", "d": d, "kind": kind})
+                if notif in ("close", "close-open"):
+                    h.ops.append({"k": "close", "d": d})
+                    if notif == "close-open":
+                        h.ops.append({"k": "open", "d": d})
+                elif notif == "open":
+                    h.ops.append({"k": "open", "d": d})
+                else:
+                    v += 1
+                    h.ops.append({"k": notif, "d": d, "text": [v, DOCS[d][2], rng.choice(["extra", "twoprocs", "plain"])]})
+                h.ops.append({"k": "ask", "d": d, "kind": kind})
+                out.append(h)
+    return out
+
+
 def header_changed(h, upto):
     """has any text up to op `upto` declared another parent than the start-up disk?"""
     for op in h.ops[:upto + 1]:
@@ -415,6 +447,9 @@ def run(ctx):
     for _ in range(n // 8):
         hists.append(gen_hist(ctx.rng, maxops, blanks=True))
         ctx.count("histories with emptied documents (oracle only)")
+    echo = echo_hists(ctx.rng, 1 if ctx.tier == "quick" else 6)
+    hists += echo
+    ctx.count("ask / notification / same ask histories", len(echo))
     ctx.log("%d histories (%d corpus), up to %d ops" % (len(hists), len(CORPUS), maxops + 2))
     t0 = time.time()
     with concurrent.futures.ThreadPoolExecutor(max_workers=8) as ex:
